@@ -269,3 +269,9 @@ for prop in ('C07', 'C02', 'C08'):
 V('C14-next-byte-returns-zero-at-end', 'C14', [(DS, "            case None:\n                raise DeserializingException(err_msg)", "            case None:\n                return 0")], names='operand-reader-raises-at-end')
 V('C12-metavars-ignores-plug', 'C12', [(PT, '    def metavars(self) -> set[int]:\n        return self.pattern.metavars().union(self.plug.metavars())\n\n    def instantiate(self, delta: Mapping[int, Pattern]) -> Pattern:\n        if not delta:\n            return self\n        return self.pattern.instantiate(delta).apply_ssubst(', '    def metavars(self) -> set[int]:\n        return self.pattern.metavars()\n\n    def instantiate(self, delta: Mapping[int, Pattern]) -> Pattern:\n        if not delta:\n            return self\n        return self.pattern.instantiate(delta).apply_ssubst(')], names='metavars-arm')
 V('C12-twin-metavars-bitor', 'C12', [(PT, '    def metavars(self) -> set[int]:\n        return self.left.metavars().union(self.right.metavars())\n\n    def instantiate(self, delta: Mapping[int, Pattern]) -> Pattern:\n        if not delta:\n            return self\n        return App(', '    def metavars(self) -> set[int]:\n        return self.left.metavars() | self.right.metavars()\n\n    def instantiate(self, delta: Mapping[int, Pattern]) -> Pattern:\n        if not delta:\n            return self\n        return App(')], expect='silent')
+
+
+# ---------------------------------------------------------------- whole-tree twin: every Python file re-printed from its ast
+for _p in ('C01', 'C02', 'C03', 'C04', 'C05', 'C06', 'C07', 'C08', 'C09', 'C10', 'C11', 'C12', 'C13', 'C14', 'C15', 'C17', 'C18', 'C19', 'C20'):
+    VARIANTS.append({'id': f'{_p}-twin-reformatted-tree', 'property': _p, 'edits': [], 'expect': 'silent', 'names': None,
+                     'transform': 'unparse-all'})
